@@ -118,6 +118,10 @@ func init() {
 	}
 	exact["github.com/ethereum/go-ethereum/ethclient.DialContext"] = dialFail
 	exact["github.com/ethereum/go-ethereum/ethclient.Dial"] = dialFail
+	// encoding/json.Marshal is reflection; in the code in scope its output only feeds log fields
+	exact["encoding/json.Marshal"] = func(e *Engine, st *State, fn *ssa.Function, args []Value, retTo *ssa.Call) (Value, bool) {
+		return TupleV{st.newByteSlice(mkString("<json>").B), IfaceV{}}, true
+	}
 	exact["github.com/mr-tron/base58.Encode"] = opaqueString("base58")
 	exact["regexp.MustCompile"] = noop
 	exact["regexp.Compile"] = noop
@@ -444,6 +448,17 @@ func init() {
 			return TS.intern(&Term{op: "durcall", sort: FPSort, name: unit, args: []*Term{d, ft}}), true
 		}
 	}
+	exact["(time.Time).UnixMilli"] = func(e *Engine, st *State, fn *ssa.Function, args []Value, retTo *ssa.Call) (Value, bool) {
+		if t, ok := args[0].(*StructV); ok {
+			if w, ok := t.F[0].(*Term); ok {
+				if ms, ok := st.msOf[w.id]; ok {
+					st.usedUnixMilli = true
+					return ms, true
+				}
+			}
+		}
+		return nil, false
+	}
 	exact[api+"Now"] = exact["time.Now"]
 	exact[api+"Since"] = func(e *Engine, st *State, fn *ssa.Function, args []Value, retTo *ssa.Call) (Value, bool) {
 		now := e.timeNow(st, fn.Signature.Params().At(0).Type()).(*StructV)
@@ -473,11 +488,27 @@ func (e *Engine) timeNow(st *State, t types.Type) Value {
 	// wall clock between 2020 and 2088 (seconds since 1885)
 	st.assume(BVUge(wsec, ConstU(4260211200, 33)))
 	st.assume(BVUlt(wsec, ConstU(4260211200+(1<<31), 33)))
+	wall := Concat(wsec, wns) // 63 bits: seconds since 1885 then nanoseconds - ordered like the instant itself
 	if last, ok := st.lastNow(); ok {
 		st.assume(BVUge(mono, last[0]))
+		st.assume(BVUge(wall, last[1])) // the harness wall clock does not jump backwards either
 	}
-	st.setLastNow(mono, wsec)
+	// a millisecond reading of the same instant for (time.Time).UnixMilli, kept as its own non-decreasing variable so
+	// that no division by 10^6 reaches the solver (code in scope uses either Sub/Since or UnixMilli on a clock value)
+	ms := st.fresh("now.ms", BV(64))
+	st.assume(BVUge(ms, ConstU(1500000000000, 64)))
+	st.assume(BVUlt(ms, ConstU(4000000000000, 64)))
+	if st.lastMs != nil {
+		st.assume(BVUge(ms, st.lastMs))
+	}
+	st.lastMs = ms
+	st.setLastNow(mono, wall)
+	st.nondet[len(st.nondet)-1].Many = append(st.nondet[len(st.nondet)-1].Many, ms)
 	tv.F[0] = Concat(ConstU(1, 1), Concat(wsec, wns))
+	if st.msOf == nil {
+		st.msOf = map[int]*Term{}
+	}
+	st.msOf[tv.F[0].(*Term).id] = ms
 	tv.F[1] = mono
 	return tv
 }
